@@ -20,7 +20,8 @@ P = "Minicbor.C06."
 # ---------------------------------------------------------------- FILLED IN BY THE PROOF AUTHOR
 REQUIRED = [P + n for n in """skip_exact skip_no_panic skip_ext skip_prefix_err skip_prefix_err'
 noalloc_lockstep noalloc_refines noalloc_exact noalloc_exact_or_unsupported noalloc_prefix_err
-skip_fuel_adequate skip_stack_le_consumed""".split()]
+skip_fuel_adequate skip_stack_le_consumed
+parse_encW parse_sound wellformed_iff skip_agrees_parse skip_ok_ends_at_parse""".split()]
 # ----------------------------------------------------------------------------------------------
 PACKAGES = ["hcore"]
 
@@ -44,7 +45,11 @@ _RULE = (
     "ff 00 9f bf 80 5f 7f c0 1b); plus strict prefixes without suffix (#prefix=1): all prefixes of items <= 24 bytes (thorough <= 256) and "
     "6 (thorough 48) seeded cut points of longer ones.  Oracle in the orchestrator: alloc: full item => exactly `ok () n`, strict prefix => "
     "`err`; no-alloc: full item => `ok () n`, or `err message` only when iid=1; strict prefix => `err`; then impl line == model line.  "
-    "Non-trivial: ok, or err on a prefix."
+    "Spec (independent of the skip model): `wf parse` = the Lean reference decoder of Parse.lean (proved sound and complete w.r.t. "
+    "Wire.lean's valid trees) must find exactly one valid item of n bytes with the same iid flag (WItem.indefInDef) on the full "
+    "input and must reject every strict prefix: skip agrees with full decoding, and the Python generator agrees with the Lean spec.  "
+    "Non-trivial: ok, or err on a prefix.  Family (e) malformed: mutated items / random structural bytes (quick 20000, thorough 200000) on both "
+    "builds: never panic, outcome == model, and the no-alloc answer equals the alloc model's answer or is `err message` (lockstep)."
 )
 ASSUMPTIONS = [
     "well-formedness of the generated items is by construction of the Python encoder enc() (definite counts = number of children, maps have an "
@@ -602,6 +607,55 @@ def build_ops(rng, tier):
     return fams
 
 
+# ------------------------------------------------------------------------------- (e) malformed input
+def mutant_ops(rng, count):
+    """arbitrary / malformed bytes for the theorems stated for ARBITRARY input (skip_no_panic, noalloc_lockstep,
+    noalloc_refines): mutated well-formed items (byte flips, deletions, insertions of structural bytes, truncation +
+    garbage) and purely random strings biased towards structural bytes."""
+    structural = bytes([0xff, 0x9f, 0xbf, 0x5f, 0x7f, 0x80, 0x81, 0x82, 0x98, 0xa0, 0xa1, 0xb8, 0xc0, 0xd8, 0x1b, 0x3b, 0x5b, 0x7b,
+                        0x9b, 0xbb, 0xf8, 0xf9, 0xfb, 0x1c, 0x3f, 0xdc, 0xfc, 0x00, 0x17, 0x18, 0x40, 0x60, 0x61])
+    base = random_trees(rng, max(50, count // 8))
+    ops = []
+    for i in range(count):
+        r = rng.random()
+        if r < 0.25:
+            n = rng.randint(0, 24)
+            b = bytes(rng.choice(structural) if rng.random() < 0.7 else rng.getrandbits(8) for _ in range(n))
+        else:
+            e = bytearray(enc(base[i % len(base)])[:300])
+            for _ in range(rng.randint(1, 3)):
+                k = rng.random()
+                pos = rng.randrange(len(e) + 1)
+                if k < 0.4 and e:
+                    e[min(pos, len(e) - 1)] = rng.choice(structural) if rng.random() < 0.6 else rng.getrandbits(8)
+                elif k < 0.6 and e:
+                    del e[min(pos, len(e) - 1)]
+                elif k < 0.85:
+                    e.insert(pos, rng.choice(structural))
+                else:
+                    e = e[:pos] + bytearray(gen.rand_bytes(rng, rng.randint(0, 3)))
+            b = bytes(e)
+        ops.append(f"dec skip {gen.hexb(b)} #mut=1")
+    return ops
+
+
+def judge_mut_alloc(op, impl, model, spec):
+    # skip_no_panic: never a panic (or crash) on arbitrary bytes; otherwise the model must predict the outcome exactly
+    if impl == "panic" or impl.startswith("crash"):
+        return "violation"
+    return "ok" if impl == model else "corr"
+
+
+def judge_mut_noalloc(op, impl, model, spec):
+    # spec = the ALLOC model on the same bytes (the alloc stream ties it to the alloc build): noalloc_lockstep says the
+    # no-alloc build answers exactly like the alloc build or with `err message`; in particular ok => same position
+    if impl == "panic" or impl.startswith("crash"):
+        return "violation"
+    if not impl.startswith("err message ") and spec is not None and impl != spec:
+        return "violation"
+    return "ok" if impl == model else "corr"
+
+
 # ------------------------------------------------------------------------------- judges
 
 def parse_ann(op):
@@ -617,11 +671,25 @@ def judge_alloc(op, impl, model, spec):
     a = parse_ann(op)
     if a.get("prefix"):
         good = impl.startswith("err ")
+        spec_good = spec is None or spec == "none"
     else:
         good = impl == f"ok () {a['n']}"
+        # the Lean reference decoder (Parse.lean, proved sound and complete for Wire.lean's valid trees) finds exactly
+        # one valid item of n bytes: "skip agrees with full decoding of the same item", and the Python generator agrees
+        # with the Lean specification about what is well-formed
+        # ... and on whether it nests an indefinite array/map inside a definite one (WItem.indefInDef, the predicate of
+        # theorem noalloc_exact_or_unsupported)
+        spec_good = spec is None or spec == f"ok () {a['n']} 1 {a['iid']}"
     if not good:
         return "violation"
+    if not spec_good:
+        return "corr"
     return "ok" if impl == model else "corr"
+
+
+def to_spec(op):
+    assert op.startswith("dec skip ")
+    return "wf parse " + op[len("dec skip "):]
 
 
 def judge_noalloc(op, impl, model, spec):
@@ -641,6 +709,10 @@ def judge_noalloc(op, impl, model, spec):
             STATS["iid0_ok"] += isok
     if not good:
         return "violation"
+    if spec is not None:
+        want = "none" if a.get("prefix") else f"ok () {a['n']} 1 {a['iid']}"
+        if spec != want:
+            return "corr"
     return "ok" if impl == model else "corr"
 
 
@@ -684,27 +756,45 @@ def streams(rng, tier):
         STATS[k] = 0
     out = []
     for name, ops in build_ops(rng, tier):
-        s1 = Stream(f"{name}-alloc", "hcore", ops, judge=judge_alloc, nontrivial=nontrivial,
-                    rule=f"family ({name}) on the alloc build (hcore) vs model `skip`; oracle: ok () n / err on strict prefixes")
+        s1 = Stream(f"{name}-alloc", "hcore", ops, spec_ops=[to_spec(o) for o in ops], judge=judge_alloc, nontrivial=nontrivial,
+                    rule=f"family ({name}) on the alloc build (hcore) vs model `skip`; oracle: ok () n / err on strict prefixes; "
+                         "spec: the Lean reference decoder `parse` (wf parse) ends at n on the full item and rejects every strict prefix")
         s1.shrinkable = False           # the #n / #iid annotations would go stale under byte deletion
         mops = [to_model_noalloc(o) for o in ops]
-        s2 = _NoallocStream(f"{name}-noalloc", NOALLOC_BIN, ops, model_ops=mops, judge=judge_noalloc, nontrivial=nontrivial,
+        s2 = _NoallocStream(f"{name}-noalloc", NOALLOC_BIN, ops, model_ops=mops, spec_ops=[to_spec(o) for o in ops],
+                            judge=judge_noalloc, nontrivial=nontrivial,
                             rule=f"family ({name}) on the no-alloc build (hnoalloc, minicbor without features) vs model `skip_noalloc`; "
                                  "oracle: ok () n, or err message only if iid=1; err on strict prefixes")
         s2.shrinkable = False
         out += [s1, s2]
-    return out
+    mops = mutant_ops(rng, 200000 if tier == "thorough" else 20000)
+    m1 = Stream("malformed-alloc", "hcore", mops, judge=judge_mut_alloc, nontrivial=lambda op, impl: True,
+                rule="mutated well-formed items and random structural bytes on the alloc build: never panic (skip_no_panic), outcome == model")
+    m2 = Stream("malformed-noalloc", NOALLOC_BIN, mops, model_ops=[to_model_noalloc(o) for o in mops], spec_ops=mops,
+                judge=judge_mut_noalloc, nontrivial=lambda op, impl: True,
+                rule="the same bytes on the no-alloc build: never panic; answer identical to the alloc model's (spec) or `err message` "
+                     "(noalloc_lockstep / noalloc_refines on arbitrary bytes); outcome == model skip_noalloc")
+    m2.shrinkable = False
+    return out + [m1, m2]
 
 
 def replay_streams(rp):
     op = rp["original_op"]
     binary = rp.get("binary", "hcore")
     mop = rp.get("model_op") or op
+    if "#mut=1" in op:
+        if binary == "hcore":
+            s = Stream("replay", "hcore", [op], judge=judge_mut_alloc)
+        else:
+            s = Stream("replay", NOALLOC_BIN, [op], model_ops=[to_model_noalloc(op)], spec_ops=[op], judge=judge_mut_noalloc)
+            s.shrinkable = False
+        return [s]
     if binary == "hcore":
-        s = Stream("replay", "hcore", [op], judge=judge_alloc, nontrivial=nontrivial)
+        s = Stream("replay", "hcore", [op], spec_ops=[rp.get("spec_op") or to_spec(op)], judge=judge_alloc, nontrivial=nontrivial)
     else:
         if not mop.startswith("dec skip_noalloc "):
             mop = to_model_noalloc(op)
-        s = _NoallocStream("replay", NOALLOC_BIN, [op], model_ops=[mop], judge=judge_noalloc, nontrivial=nontrivial)
+        s = _NoallocStream("replay", NOALLOC_BIN, [op], model_ops=[mop], spec_ops=[rp.get("spec_op") or to_spec(op)],
+                           judge=judge_noalloc, nontrivial=nontrivial)
     s.shrinkable = False
     return [s]
